@@ -488,6 +488,20 @@ class FnAnalysis:
             b = strip(e.args[0])
             if b.k == 'binop' and b.name in ('AddWithOverflow', 'SubWithOverflow'):
                 e = b
+        if e.k == 'call' and last(e.name or '') == 'len' and e.args and e.site and depth < 12:
+            # the length of a locally built vector, taken where len() is called: the sum of its appends so far
+            try:
+                bl_ = self.builder_lin(e.args[0], e.site[0])
+            except RecursionError:
+                bl_ = None
+            if bl_ is not None:
+                return dict(bl_[0]), bl_[1]
+            try:
+                ll_ = self.length(e.args[0], e.site[0])
+            except RecursionError:
+                ll_ = (0, INF)
+            if ll_[0] == ll_[1]:
+                return {}, ll_[0]          # a fixed-size array
         if e.k == 'binop' and e.name in ('AddWithOverflow', 'SubWithOverflow', 'Add', 'Sub') and len(e.args) == 2 and depth < 12:
             a, ca = self.linform(e.args[0], depth + 1)
             b, cb = self.linform(e.args[1], depth + 1)
@@ -756,7 +770,7 @@ class FnAnalysis:
                     break
         total_lo, total_hi = 0, 0
         KEEP_LEN = ('other:index_mut', 'other:deref_mut', 'other:as_mut_slice', 'other:iter_mut', 'other:copy_from_slice', 'other:clone_from_slice',
-                    'other:fill', 'other:swap', 'other:reverse', 'other:sort', 'other:as_mut', 'other:as_mut_ptr', 'other:last_mut', 'other:first_mut', 'other:get_mut')
+                    'other:fill', 'other:swap', 'other:reverse', 'other:sort', 'other:as_mut', 'other:as_mut_ptr', 'other:last_mut', 'other:first_mut', 'other:get_mut', 'setelem')
         for a in appends(fn, P, L, cb):
             if a.kind in KEEP_LEN:
                 continue
@@ -817,7 +831,7 @@ class FnAnalysis:
                     L = st['lhs']['l']
                     break
         KEEP_LEN = ('other:index_mut', 'other:deref_mut', 'other:as_mut_slice', 'other:iter_mut', 'other:copy_from_slice', 'other:clone_from_slice',
-                    'other:fill', 'other:swap', 'other:reverse', 'other:sort', 'other:as_mut', 'other:as_mut_ptr', 'other:last_mut', 'other:first_mut', 'other:get_mut')
+                    'other:fill', 'other:swap', 'other:reverse', 'other:sort', 'other:as_mut', 'other:as_mut_ptr', 'other:last_mut', 'other:first_mut', 'other:get_mut', 'setelem')
         atoms, const = {}, 0
         for a in appends(fn, P, L, cb):
             if a.kind in KEEP_LEN:
@@ -826,6 +840,8 @@ class FnAnalysis:
             after_possible = a.block in fn.reachable(block)
             if not before and not after_possible:
                 continue
+            if after_possible and not before and a.block != block and block not in fn.reachable(a.block) and not a.in_loop:
+                continue              # strictly later on every path: it has not happened yet at this point
             if a.in_loop or (after_possible and not before) or a.kind.startswith('other'):
                 return None
             if a.kind == 'bytesplit':
@@ -1386,6 +1402,12 @@ class FnAnalysis:
         m = re.match(r'^SubWithOverflow\((.*), (\d+)\)\.0$', xs)
         if m and m.group(1) == L and int(m.group(2)) >= 1:
             return True
+        # a locally built vector: index = (symbolic part of its length) + c with c below the constant part
+        bl_ = self.builder_lin(base, b)
+        if bl_ is not None:
+            la, lc = self.linform(x)
+            if la == bl_[0] and 0 <= lc < bl_[1]:
+                return True
         for p, truth in self.guards(b):
             if p.kind == 'cmp' and len(p.args) == 2:
                 p0, p1 = self.cn.c(p.args[0]), self.cn.c(p.args[1])
